@@ -57,6 +57,7 @@ type Server struct {
 	wg              sync.WaitGroup
 	logger          *slog.Logger
 	types           *pgtype.Map
+	typeExtensions  []func(*pgtype.Map)
 	Auth            AuthStrategy
 	BufferedMsgSize int
 	Parameters      Parameters
@@ -122,8 +123,20 @@ func (srv *Server) Serve(listener net.Listener) error {
 	}
 }
 
+// connectionTypes constructs the type map used by a single connection. A type
+// map memoizes the plans used to encode and decode values and is not safe for
+// concurrent use, connections therefore do not share a type map.
+func (srv *Server) connectionTypes() *pgtype.Map {
+	types := pgtype.NewMap()
+	for _, extend := range srv.typeExtensions {
+		extend(types)
+	}
+
+	return types
+}
+
 func (srv *Server) serve(ctx context.Context, conn net.Conn) error {
-	ctx = setTypeInfo(ctx, srv.types)
+	ctx = setTypeInfo(ctx, srv.connectionTypes())
 	ctx = setRemoteAddress(ctx, conn.RemoteAddr())
 	defer conn.Close()
 
